@@ -359,3 +359,19 @@ func TestF17UnencodableErrorData(t *testing.T) {
 		t.Errorf("the batch [bad, m] was not answered; next message on the wire: %s", r)
 	}
 }
+
+// F18: the client-side counterpart of F17. An OnCallback handler that fails with an *Error whose
+// Data is not JSON makes the reply unencodable; handleCallback ignores the encoding error and the
+// client sends an EMPTY record - not a JSON-RPC message - and the server's Callback never gets its
+// answer.
+func TestF18CallbackReplyUnencodableErrorData(t *testing.T) {
+	peer, cch := rawPair()
+	cli := jrpc2.NewClient(cch, &jrpc2.ClientOptions{OnCallback: func(ctx context.Context, req *jrpc2.Request) (any, error) {
+		return nil, &jrpc2.Error{Code: 9, Message: "cb failed", Data: json.RawMessage(`{"partial":`)}
+	}})
+	defer func() { peer.Close(); cli.Close() }()
+	got := sendRecv(t, peer, `{"jsonrpc":"2.0","id":1,"method":"cb"}`)
+	if !strings.Contains(got, `"id":1`) || !strings.Contains(got, `"code":9`) {
+		t.Errorf("the callback was answered with %q, which is not its failure report", got)
+	}
+}
